@@ -43,6 +43,16 @@ def check_after(ctx, base, ids, dry, rules_desc, r_del, post, kind, pre_arch):
                 ctx.oracle_fail("delete/band-not-removed", f"delete of {ids} succeeded but b{b:04d} is still there", small)
                 return False
             continue
+        if not must_survive and kind in ("crash", "fault") and b in dec["bands"]:
+            # a version the delete was asked to remove but that is STILL THERE and complete after the kill / failure
+            # is a remaining complete version: it must restore exactly as before
+            band = dec["bands"][b]
+            still_complete = band["head"] is not None and band["tail"] is not None and band["tail"].get("t") == "json" \
+                and arch["files"].get(f"b{b:04d}/BANDHEAD") == pre_arch["files"].get(f"b{b:04d}/BANDHEAD")
+            if still_complete and want.get("result") == "ok" and (got.get("result") != "ok" or got.get("monitor_errors") or scen.first_difference(scen.strip(want.get("tree")), scen.strip(got.get("tree")))):
+                ctx.oracle_fail("delete/remaining-version-harmed", f"delete of {ids} stopped ({kind} {rules_desc}) with b{b:04d} still present and complete, "
+                                                                   f"but it no longer restores exactly: {json.dumps(got.get('err') or got.get('monitor_errors'))[:160]}", small)
+                return False
         if must_survive:
             if got.get("result") != "ok" or got.get("monitor_errors") or scen.first_difference(scen.strip(want.get("tree")), scen.strip(got.get("tree"))):
                 ctx.oracle_fail("delete/kept-version-harmed", f"after delete of {ids} (dry={dry}, {kind} {rules_desc}) kept version b{b:04d} no longer restores "
